@@ -97,7 +97,8 @@ def finish(a, P, results, seed, t0):
         print(f'CHECKER-CRASH unit={r["unit"]}: {r["crash"]}', file=sys.stderr)
     n_ob = len(obligations)
     n_ok = sum(1 for o in obligations if o['result'] == 'proved')
-    proof = (n_ob > 0 and n_ok == n_ob and not undecided and not crashes)
+    all_ok = (n_ob > 0 and n_ok == n_ob and not undecided and not crashes)
+    proof = all_ok and P.get('level', 'proof') == 'proof'
     solver_time = round(sum(o.get('time', 0) for o in obligations), 3)
     by_backend = {}
     for o in obligations:
@@ -120,8 +121,11 @@ def finish(a, P, results, seed, t0):
         cov['evaluations'] = max(1, n_ob + sum(r.get('evaluations', 0) for r in bounded))
         cov['distinct_nontrivial'] = max(2, n_ok)
         cov['rule'] = 'obligations generated from the AST of the functions under contract; distinct = distinct obligation names discharged'
-        cov['explanation'] = ('not every obligation was discharged: ' +
-                              f'{n_ob - n_ok} open, {len(undecided)} undecided, {len(crashes)} crashed units; see undecided/refuted')
+        if all_ok:
+            cov['explanation'] = P.get('level_why', '') + f' -- deductive part: {n_ok}/{n_ob} obligations discharged; bounded part: see coverage.bounded'
+        else:
+            cov['explanation'] = ('not every obligation was discharged: ' +
+                                  f'{n_ob - n_ok} open, {len(undecided)} undecided, {len(crashes)} crashed units; see undecided/refuted')
     ev = {
         'property_id': pid, 'tier': a.tier, 'seed': seed,
         'level': 'proof' if proof else 'other',
@@ -132,12 +136,12 @@ def finish(a, P, results, seed, t0):
     }
     os.makedirs(os.path.join(HERE, 'evidence'), exist_ok=True)
     json.dump(ev, open(os.path.join(HERE, 'evidence', f'{pid}.json'), 'w'), indent=1, default=str)
-    if a.verbose:
-        for o in obligations:
-            if o['result'] != 'proved':
-                print('  ', o['result'], o['name'])
-        for u in undecided:
-            print('   UNDECIDED', u['where'], u['reason'][:300])
+    shown = 0
+    for o in obligations:
+        if o['result'] != 'proved' and (a.verbose or shown < 12):
+            print('  ', o['result'], o['name'], o.get('backend')); shown += 1
+    for u in undecided[: (len(undecided) if a.verbose else 12)]:
+        print('   UNDECIDED', u['where'], u['reason'][:300 if a.verbose else 120].replace('\n', ' '))
     print(f'{pid}: {n_ok}/{n_ob} obligations discharged, {len(undecided)} undecided, {len(violations)} refuted '
           f'({len(unlisted)} unlisted), {len(functions)} functions, {ev["wall_s"]}s')
     if crashes and rc == 0:
